@@ -226,6 +226,13 @@ def ops13 : List (String × Op) := [
         match gradientPlan sparse size nnz gk gc mi with
         | .error _ => rejectJ
         | .ok gp => Json.mkObj [("ok", Json.mkObj [("function", planJ fp), ("gradient", planJ gp)])])),
+  ("c13_tovec", fun j => do
+    let K ← field j "model" >>= asKtensor
+    .ok (ratsJ (tovecF K))),
+  ("c13_update", fun j => do
+    let K ← field j "model" >>= asKtensor
+    let d ← field j "data" >>= asRats
+    .ok (ktensorJ (updateF K d))),
   ("c13_solves", fun j => solvesOp scRat none j),
   ("c13_solves_float", fun j => solvesOp scFloat (some Float.sqrt) j),
   ("c13_step", fun j => stepOp scRat none j),
